@@ -4,3 +4,4 @@ import Vore.Props.C20
 import Vore.Model.Lexer
 import Vore.Props.C08parse
 import Vore.Props.C15parse
+import Vore.Props.C07
